@@ -39,6 +39,9 @@ ASSUMPTIONS = [
     "input of the model (normalisation of class values is C14's subject); for all other parsers the whole pipeline "
     "defaults -> env -> argv/--cfg/object -> links -> validation is modelled",
     "dump is observed with skip_none=False (skip_none=True dropping an explicit null is C01's finding)",
+    "values are finite trees without sharing: link sets WITH key overlaps never hand a group/class Namespace through by "
+    "reference (identity/first/tup are replaced by gsum there), because the real parser then builds shared or cyclic "
+    "Namespaces; a whole class argument is never a link target",
 ]
 EXHAUSTIVE = {"quick": False, "thorough": False}
 FINDING_CLASSES = {1: "link-key-prefix-overlap", 2: "list-item-target-in-dump", 3: "skipped-link-target-stripped"}
@@ -615,7 +618,8 @@ META = {
         "what _initial_input_checks establishes and why it is needed; C15_target_not_required; C15_target_option_rejected; "
         "C15_target_absent_from_dump and C15_dump_changes_only_targets (strip_link_target_keys, any configuration); "
         "C15_reparse_restores_target (two successful parses with equal source values give the same target); "
-        "C15_link_key_prefix_overlap_refuted and C15_list_item_target_in_dump_refuted — kernel-evaluated inputs on which "
+        "C15_link_key_prefix_overlap_refuted, C15_list_item_target_in_dump_refuted and "
+        "C15_skipped_link_target_stripped_refuted — kernel-evaluated inputs on which "
         "the unrepaired code violates the property; C15_fixed_dump_list_items_clean for the repaired strip. "
         "Examples show each hypothesis satisfiable by a non-trivial parser/input."),
     "level_note": (
